@@ -44,7 +44,7 @@ func runC12(e *Env) error {
 			body.WriteString("[{{ " + params[i] + " }}]")
 		}
 		// an escaped delimiter in the body is literal text there as anywhere else: the argument is not substituted into it
-		body.WriteString("g={{ g }};L\\{{ g }}\\{{ p }};{{ sib('z') }}{% set leak = 'LEAK' %}{% set g = 'changed' %})")
+		body.WriteString("g={{ g }};L\\{{ g }}\\{{ p }};{{ sib('z') }}{% set leak = 'LEAK' %}{% set g = 'changed' %}{% do h = 'changed-by-do' %}{% do leak2 = 1 %})")
 		lib := "{% macro " + mn + "(" + strings.Join(sig, ", ") + ") %}" + body.String() + "{% endmacro %}{% macro sib(x) %}S{{ x }}{% endmacro %}"
 		args := make([]string, argc)
 		argOut := make([]string, argc)
@@ -75,7 +75,7 @@ func runC12(e *Env) error {
 		}
 		want.WriteString("g=G;L{{ g }}{{ p }};Sz)")
 		call := func(prefix string) string { return "{{ " + prefix + "(" + strings.Join(args, ", ") + ") }}" }
-		after := "|{{ leak is defined ? 'LEAKED' : 'clean' }}|{{ g }}"
+		after := "|{{ leak is defined or leak2 is defined ? 'LEAKED' : 'clean' }}|{{ g }}{{ h == 'H' ? '' : h }}"
 		wrap := func(inner string) string {
 			switch placement {
 			case 1:
@@ -107,7 +107,7 @@ func runC12(e *Env) error {
 		wantAll := want.String() + "|clean|G"
 		for _, route := range []string{"local", "self", "import", "from", "from-alias", "import-namesake", "from-other-namesake", "reexport-from", "reexport-import", "reexport-alias"} {
 			tpls := map[string]string{"main": routes[route], "lib": lib, "lib2": "{% macro " + mn + "() %}OTHERLIB{% endmacro %}", "libR": "{% from 'lib' import " + mn + ", sib %}{% macro own() %}own{% endmacro %}"}
-			c := &Case{Templates: tpls, Main: "main", Ctx: map[string]any{"g": "G", "p": "OUTER-p", "q": "OUTER-q", "r": "OUTER-r", "s": "OUTER-s"}, FailAt: -1}
+			c := &Case{Templates: tpls, Main: "main", Ctx: map[string]any{"g": "G", "h": "H", "p": "OUTER-p", "q": "OUTER-q", "r": "OUTER-r", "s": "OUTER-s"}, FailAt: -1}
 			im, _, _, err := compareCase(e, c, "render-model-c12", "correspondence (Lean pipeline vs real engine) on macro programs")
 			if err != nil {
 				return err
@@ -168,6 +168,28 @@ func runC12(e *Env) error {
 		mn := pick(rg, []string{"m", "m", "range", "max", "min", "length", "date", "merge", "cycle", "upper", "block", "include"})
 		if err := runSig(arity, rg.Intn(1<<arity), rg.Intn(arity+3), rg.Intn(4), mn); err != nil {
 			return err
+		}
+	}
+	// a parameter left null next to a visible macro of the same name: the parameter is the (null) parameter
+	{
+		lib := "{% macro field(name, label, sib2) %}[{{ name }}|{{ label }}|{{ sib2 }}|{{ label is null ? 'n' : 'v' }}]{% endmacro %}{% macro label(x) %}L{% endmacro %}{% macro sib2() %}S{% endmacro %}"
+		routes := map[string]string{
+			"local": lib + "{{ field('q') }}{{ field('q', null) }}{{ field('q', 'lbl', null) }}", "self": lib + "{{ _self.field('q') }}{{ _self.field('q', null) }}{{ _self.field('q', 'lbl', null) }}",
+			"import": "{% import 'flib' as F %}{{ F.field('q') }}{{ F.field('q', null) }}{{ F.field('q', 'lbl', null) }}", "from": "{% from 'flib' import field, label %}{{ field('q') }}{{ field('q', null) }}{{ field('q', 'lbl', null) }}",
+			"in-loop": "{% from 'flib' import field as ff %}{% for i in [1] %}{{ ff('q') }}{{ ff('q', null) }}{{ ff('q', 'lbl', null) }}{% endfor %}",
+		}
+		want := "[q|||n][q|||n][q|lbl||v]"
+		for _, name := range sortedKeys(routes) {
+			c := &Case{Templates: map[string]string{"main": routes[name], "flib": lib}, Main: "main", Ctx: map[string]any{}, FailAt: -1}
+			im, _, _, err := compareCase(e, c, "render-model-c12", "correspondence on null parameters named like macros")
+			if err != nil {
+				return err
+			}
+			r.Seen("null-param:"+name, true)
+			if im.Class != "" || im.Out != want {
+				r.Violate(Violation{Key: "macro-binding-or-route", What: fmt.Sprintf("parameters left null next to macros of the same names, via %s: %q (%s), expected %q", name, truncate(im.Out, 160), im.Class, want),
+					Broken: "theorem C12_param_read (implementation-only oracle)", Replay: c.replay(im, Outcome{})})
+			}
 		}
 	}
 	// the library is registered again with other defaults and another body: every route follows it
